@@ -29,6 +29,7 @@ typedef struct {
 ghost_t G;
 fiber_manager_t VM0;
 fiber_t ME;          /* the calling fiber (joiner / detacher) */
+fiber_t OTHERJ;      /* another joiner that may be parked in the mailbox */
 fiber_t* T;          /* the target fiber (heap object: reclaimed once its finished self is woken) */
 #include "src/fiber.c" /* woven */
 /* the private marker fiber_detach hands to a parked joiner (introduced by the D5 fix); a rename makes this TU fail to compile = undecided */
@@ -99,7 +100,7 @@ void fiber_manager_set_and_wait(fiber_manager_t* m, void** location, void* value
 void* fiber_manager_clear_or_wait(fiber_manager_t* m, _Atomic(void*)* location) {
   VASSERT(m == &VM0 && location == (_Atomic(void*)*)&T->join_info, "C: take the parked party out of the target's mailbox");
   /* spins (yielding) until the mailbox is occupied; with an empty mailbox that nobody will fill it never returns */
-  if (!role_finisher && !role_detacher) VASSUME(G.mailbox == MB_FINISHER);
+  if (!role_finisher && !role_detacher) { VASSUME(G.mailbox == MB_FINISHER || G.mailbox == MB_OTHER); if (G.mailbox == MB_OTHER) { G.mailbox = MB_EMPTY; return (void*)&OTHERJ; } }
   if (role_finisher) VASSUME(G.mailbox == MB_ME);
   G.mailbox = MB_EMPTY;
   if (role_detacher) { G.detach_saw_joiner = (G.ds_seen == FIBER_DETACH_WAIT_TO_JOIN); return G.detach_saw_joiner ? (void*)&ME : (void*)T; }   /* a parked joiner (here: ME) or the parked finished fiber */
@@ -109,6 +110,7 @@ void fiber_scheduler_schedule(fiber_scheduler_t* s, fiber_t* f) {
   if (f->state != FIBER_STATE_READY || G.scheduled) G.sched_bad = 1;
   if (role_finisher && f == &ME && *(void**)&ME.result != G.R) G.sched_bad = 1;   /* the joiner is woken only after the return value is in it */
   G.scheduled++;
+  if (!role_finisher && !role_detacher && f != T) G.sched_bad = 1;   /* a joiner only ever wakes the finished fiber, never another joiner */
   if (f == T) { G.t_freed = 1; }   /* the finished fiber runs on, becomes DONE and is reclaimed: T is gone */
 }
 static void init(int finisher) {
@@ -139,7 +141,7 @@ void h_join(void) {
 void h_tryjoin(void) {
   init(0); void* res = (void*)verif_u64();
   int r = fiber_tryjoin(T, &res);
-  VASSERT(G.parks == 0, "C04.tryjoin: never parks");
+  VASSERT(G.parks == 0 && !G.sched_bad, "C04.tryjoin: never parks; wakes nobody but the finished fiber");
   if (r == FIBER_SUCCESS) VASSERT(!G.sched_bad && G.scheduled == 1 && G.fin && res == G.R && !G.other_joined, "C04.tryjoin: SUCCESS only for a finished fiber nobody else has joined, delivering its return value and waking it once");
   else VASSERT(r == FIBER_ERROR && G.scheduled == 0 && res == 0, "C04.tryjoin: failure wakes nobody and delivers nothing");
   VCANARY("tryjoin can return");
